@@ -78,7 +78,7 @@ let () =
       done
     with End_of_file -> ())
   end else begin
-    let f = if which = "spec" then spec_case2 else run_case5 in
+    let f = if which = "spec" then spec_case2 else run_case6 in
     (try
       while true do
         let line = input_line ic in
